@@ -187,7 +187,7 @@ def voice_call_total(r, cc, total):
     return out
 
 
-def generated_data_tx(r, rate, conf, n, preambles, cc, sap, payload_kind="random", dst=77, src=5678):
+def generated_data_tx(r, rate, conf, n, preambles, cc, sap, payload_kind="random", dst=77, src=5678, fmt="data"):
     """data transmission built by the real TransmissionGenerator; returns (bursts, meta)"""
     from math import ceil
 
@@ -202,17 +202,31 @@ def generated_data_tx(r, rate, conf, n, preambles, cc, sap, payload_kind="random
         payload = bytes(i & 255 for i in range(n))
     nb = max(1, ceil(1 + (n - olb) / opb))
     poc = (nb - 1) * opb + olb - n
-    hdr = DataHeader(dpf=DataPacketFormats.DataPacketConfirmed if conf else DataPacketFormats.DataPacketUnconfirmed, sap_identifier=sap,
-                     is_response_requested=conf, pad_octet_count=poc, llid_destination=dst, llid_source=src, blocks_to_follow=nb,
-                     full_message_flag=FullMessageFlag.FirstTryToCompletePacket, resynchronize_flag=ResynchronizeFlag(0) if conf else None,
-                     fragment_sequence_number=8, is_group=r.random() < 0.5)
+    if fmt == "sdd":
+        # defined short data header (DD_HEAD): confirmed when the A bit is set -- the form text messages use on air; announces appended blocks
+        from okdmr.dmrlib.etsi.layer2.elements.defined_data_formats import DefinedDataFormats
+        from okdmr.dmrlib.etsi.layer2.elements.sarq import SARQ
+
+        hdr = DataHeader(dpf=DataPacketFormats.ShortDataDefined, sap_identifier=sap, is_response_requested=conf, pad_octet_count=poc,
+                         llid_destination=dst, llid_source=src, appended_blocks=nb, defined_data_format=r.choice(list(DefinedDataFormats)),
+                         sarq=SARQ(r.randrange(2)), full_message_flag=FullMessageFlag.FirstTryToCompletePacket,
+                         bit_padding=int2ba(r.getrandbits(8), 8), is_group=r.random() < 0.5)
+    elif fmt == "resp":
+        hdr = DataHeader(dpf=DataPacketFormats.ResponsePacket, sap_identifier=sap, is_response_requested=conf, pad_octet_count=poc,
+                         llid_destination=dst, llid_source=src, blocks_to_follow=nb, full_message_flag=FullMessageFlag.FirstTryToCompletePacket,
+                         response_class=r.randrange(4), response_type=r.randrange(8), response_status=r.randrange(8))
+    else:
+        hdr = DataHeader(dpf=DataPacketFormats.DataPacketConfirmed if conf else DataPacketFormats.DataPacketUnconfirmed, sap_identifier=sap,
+                         is_response_requested=conf, pad_octet_count=poc, llid_destination=dst, llid_source=src, blocks_to_follow=nb,
+                         full_message_flag=FullMessageFlag.FirstTryToCompletePacket, resynchronize_flag=ResynchronizeFlag(0) if conf else None,
+                         fragment_sequence_number=8, is_group=r.random() < 0.5)
     bursts = TransmissionGenerator.generate_full_data_transmission(packet_type=rate_class(rate), userdata=payload, data_header=hdr,
                                                                    csbk_count=preambles, colour_code=cc)
     tags = ["pre"] * preambles + ["hdr"] + ["rate"] * nb
     assert len(tags) == len(bursts), (len(tags), len(bursts))
     wire = [(b.as_bytes(), "D", t) for b, t in zip(bursts, tags)]
     meta = {"payload": payload.hex(), "poc": poc, "conf": conf, "rate": rate, "nblocks": nb, "preambles": preambles, "cc": cc, "n": n,
-            "sap": sap.name}
+            "sap": sap.name, "fmt": fmt}
     return wire, meta
 
 
